@@ -290,8 +290,8 @@ pub fn json_image(v: &SVal) -> Option<Value> {
 
 // (type names carry no meaning for the image: also names that coincide with reval's own value kinds and with the
 // private marker names some formats use)
-const NAMES: [&str; 16] = [
-    "T", "Event", "Kind", "a", "b", "facts", "Duration", "Decimal", "DateTime", "Value", "Int", "None", "Option", "String",
+const NAMES: [&str; 19] = [
+    "", " ", "r#V", "T", "Event", "Kind", "a", "b", "facts", "Duration", "Decimal", "DateTime", "Value", "Int", "None", "Option", "String",
     "$serde_json::private::Number", "$serde_json::private::RawValue",
 ];
 // (field names are plain strings to a serializer: also raw-identifier spellings, keywords, blanks)
